@@ -48,7 +48,9 @@ Definition wr_init (kb : N) : wr := mkwr [] [] 0 kb.
 
 Definition flush (kb : N) (w : wr) : wr := mkwr (buf_rev w ++ out_rev w) [] 0 kb.
 
-Definition sub64 (a b : N) : N := (a + 2 ^ 64 - b) mod 2 ^ 64.
+(* size_type subtraction (64-bit, wraps) *)
+Definition two64 : N := 18446744073709551616.
+Definition sub64 (a b : N) : N := if b <=? a then a - b else a + two64 - b.
 
 Fixpoint stores (kb : N) (xs : list N) (w : wr) : option wr :=
   match xs with
